@@ -2,7 +2,8 @@
 // usage: vc10 c10table <scratch-dir>     -- one op per stdin line, one canonical line per op (see Drv/C10.lean):
 //                                        rfo / prov / valid / pnode / pdir / pred (value-kind tables), proc (real children through the
 //                                        real execution queue), life (start / providePriorValue / provideValue / execute sequences)
-//        vc10 c10build                   -- `build|session <dir> <lanes>`, `drop <dir>`: in-process keep-going builds for the end-to-end oracle
+//        vc10 c10build                   -- `build|session <dir> <lanes> [policy]`, `drop <dir>`: in-process keep-going builds for the end-to-end oracle
+//                                           (policy: `-` none, `k<N>` cancel at the N-th failed command, `s<name>` / `f<name>` cancel when <name> starts / finished)
 //
 // The task and command classes live in an anonymous namespace of BuildSystem.cpp, so that translation unit
 // is compiled into the harness (same flags as the library; the archive member is then not pulled in).
@@ -442,7 +443,35 @@ static void mode_table(const std::string& scratch) {
 class KeepGoingDelegate : public VDelegate {
 public:
   unsigned lanes = 1;
+  // client policies of a long-lived client (optional 4th field of a `build` / `session` op; `-` = keep going, never cancel):
+  //   k<N>     cancel the build at the N-th hadCommandFailure() ("keep going, give up at the N-th failed command", cf. `ninja -k N`)
+  //   s<name>  cancel when command <name> is started        f<name>  cancel when command <name> has finished
+  BuildSystem* sys = nullptr;
+  unsigned cancelAtFailure = 0;
+  std::string cancelOnStart, cancelOnFinish;
+  unsigned cancels = 0;
+  std::mutex pm;
   KeepGoingDelegate() : VDelegate("basic") {}
+  void setPolicy(const std::string& p) {
+    cancelAtFailure = 0; cancelOnStart.clear(); cancelOnFinish.clear(); cancels = 0;
+    if (p.size() < 2) return;
+    if (p[0] == 'k') cancelAtFailure = atoi(p.c_str() + 1);
+    else if (p[0] == 's') cancelOnStart = p.substr(1);
+    else if (p[0] == 'f') cancelOnFinish = p.substr(1);
+  }
+  void doCancel() { cancels++; if (sys) sys->cancel(); }
+  void hadCommandFailure() override {
+    bool c;
+    { std::lock_guard<std::mutex> l(pm); failures++; c = cancelAtFailure && failures >= cancelAtFailure; }
+    if (c) doCancel();
+  }
+  void commandStarted(Command* c) override {
+    { std::lock_guard<std::mutex> l(pm); started++; }
+    if (!cancelOnStart.empty() && c->getName() == cancelOnStart) doCancel();
+  }
+  void commandFinished(Command* c, ProcessStatus) override {
+    if (!cancelOnFinish.empty() && c->getName() == cancelOnFinish) doCancel();
+  }
   std::unique_ptr<Tool> lookupTool(StringRef) override { return nullptr; }
   std::unique_ptr<ExecutionQueue> createExecutionQueue() override {
     return std::unique_ptr<ExecutionQueue>(createLaneBasedExecutionQueue(
@@ -467,26 +496,30 @@ static void mode_build() {
   while (std::getline(std::cin, line)) {
     auto f = vh::split(line);
     if (f.size() == 2 && f[0] == "drop") { sessions.erase(f[1]); std::cout << "dropped\n"; std::cout.flush(); continue; }
-    if (f.size() != 3 || (f[0] != "build" && f[0] != "session")) { std::cout << "bad-op\n"; std::cout.flush(); continue; }
+    if ((f.size() != 3 && f.size() != 4) || (f[0] != "build" && f[0] != "session")) { std::cout << "bad-op\n"; std::cout.flush(); continue; }
+    std::string policy = f.size() == 4 ? f[3] : "-";
     if (chdir(f[1].c_str()) != 0) { std::cout << "chdir-failed\n"; std::cout.flush(); continue; }
     bool ok;
-    unsigned failures, errors;
+    unsigned failures, errors, cancelled = 0;
     if (f[0] == "build") {
       KeepGoingDelegate d;
       d.lanes = atoi(f[2].c_str());
+      d.setPolicy(policy);
       {
         BuildSystem system(d, createLocalFileSystem());
+        d.sys = &system;
         std::string err;
         system.attachDB("build.db", &err);
         ok = system.loadDescription("build.llbuild") && system.build(StringRef(""));
       }
-      failures = d.failures; errors = d.errors.size();
+      failures = d.failures; errors = d.errors.size(); cancelled = d.cancels;
     } else {
       auto& sp = sessions[f[1]];
       if (!sp) {
         sp.reset(new Session);
         sp->d.lanes = atoi(f[2].c_str());
         sp->system.reset(new BuildSystem(sp->d, createLocalFileSystem()));
+        sp->d.sys = sp->system.get();
         std::string err;
         sp->system->attachDB("build.db", &err);
         sp->loaded = sp->system->loadDescription("build.llbuild");
@@ -495,10 +528,15 @@ static void mode_build() {
         sp->d.errors.clear();
         sp->system->resetForBuild();
       }
+      sp->d.setPolicy(policy);
       ok = sp->loaded && sp->system->build(StringRef(""));
       failures = sp->d.failures; errors = sp->d.errors.size();
+      cancelled = sp->d.cancels;
     }
-    std::cout << "ok=" << (ok ? 1 : 0) << " failures=" << failures << " errors=" << errors << "\n";
+    // (a build the client cancelled is a failed build for the client: BuildSystemFrontend::build returns `!cancelled && no failed command`)
+    std::cout << "ok=" << (ok ? 1 : 0) << " failures=" << failures << " errors=" << errors;
+    if (f.size() == 4) std::cout << " cancelled=" << cancelled;
+    std::cout << "\n";
     std::cout.flush();
   }
 }
